@@ -4,7 +4,7 @@
    computes it; no vertex twice; stateful predecessor and every window producer strictly earlier in (partition, generation) order; supervisor
    vertex p closes partition p; at most one slot of a kind per generation).  apply_window itself is specified for every graph. *)
 From Coq Require Import List Arith ZArith Bool.
-From Rex Require Import CompiledModel WindowSpec WindowPush ScheduleSpec.
+From Rex Require Import CompiledModel WindowSpec WindowPush ScheduleSpec ScheduleCover.
 Open Scope Z_scope.
 
 (* soundness of the extracted validator: an accepted schedule satisfies ValidSchedule (every running slot carries a vertex of its own kind with that vertex's seq, times and window; no vertex twice; predecessor step and every window producer strictly earlier; supervisor step p closes partition p; one slot per kind and generation) *)
@@ -26,6 +26,21 @@ Print Assumptions C07_node_steps_in_seq_order.
 Theorem C07_supervisor_closes_partition : forall I : inst, ValidSchedule I -> forall (k : Z) (p g : nat) (c : cell), In (i_sup I, k, p, g, c) (run_cells I) -> Z.of_nat p = k /\ g = (i_ngen I - 1)%nat.
 Proof. exact @supervisor_closes_partition. Qed.
 Print Assumptions C07_supervisor_closes_partition.
+
+(* in a valid schedule every ancestor (previous steps, window producers, transitively) of a scheduled vertex is scheduled *)
+Theorem C07_ancestors_scheduled : forall I : inst, ValidSchedule I -> forall v w : nat * Z, scheduled I v -> Relation_Operators.clos_refl_trans (nat * Z) (dep I) v w -> scheduled I w.
+Proof. exact @ancestors_scheduled. Qed.
+Print Assumptions C07_ancestors_scheduled.
+
+(* no vertex is scheduled twice *)
+Theorem C07_scheduled_once : forall I : inst, ValidSchedule I -> forall (n : nat) (k : Z) (p g : nat) (c : cell) (p' g' : nat) (c' : cell), In (n, k, p, g, c) (run_cells I) -> In (n, k, p', g', c') (run_cells I) -> (p, g, c) = (p', g', c').
+Proof. exact @scheduled_once. Qed.
+Print Assumptions C07_scheduled_once.
+
+(* if the validators accept the schedule, every vertex a supervisor step inside the horizon depends on is scheduled *)
+Theorem C07_horizon_covered : forall I : inst, check_schedule I = true -> check_sup_present I = true -> forall (p : nat) (w : nat * Z), (p < i_nparts I)%nat -> Relation_Operators.clos_refl_trans (nat * Z) (dep I) (i_sup I, Z.of_nat p) w -> scheduled I w.
+Proof. exact @horizon_covered. Qed.
+Print Assumptions C07_horizon_covered.
 
 (* the window of receiver step k computed by apply_window = the last `window` of (defaults ++ messages with valid seq_in <= k), oldest first, provided seq_in is non-decreasing along the edge array (invalid entries last) *)
 Theorem C07_apply_window_spec : forall (I : inst) (c : nat), Sorted.StronglySorted Z.le (map si_of (nth c (i_edges I) nil)) -> win_model I c = map (fun v : vertex => lastn (k_win (conn I c)) (repeat (-1, 0, 0) (k_win (conn I c)) ++ map (entry_of I c) (filter (good (v_seq v)) (nth c (i_edges I) nil)))) (verts I (k_in (conn I c))).
